@@ -178,3 +178,22 @@ mod tests {
         assert_eq!(header.total_size(), 8);
     }
 }
+
+/// Read exactly `len` bytes. `len` usually comes from a size field stored in the file, so nothing
+/// is allocated up front: the buffer grows with the bytes that are really there and a hostile
+/// size simply ends in `UnexpectedEof`.
+pub(crate) fn read_exact_vec<R: std::io::Read>(
+    reader: &mut R,
+    len: usize,
+) -> std::io::Result<Vec<u8>> {
+    use std::io::Read;
+    let mut data = Vec::new();
+    reader.by_ref().take(len as u64).read_to_end(&mut data)?;
+    if data.len() != len {
+        return Err(std::io::Error::new(
+            std::io::ErrorKind::UnexpectedEof,
+            format!("expected {len} bytes, found {}", data.len()),
+        ));
+    }
+    Ok(data)
+}
